@@ -84,7 +84,9 @@ def _run_index(args):
         return {"index": index, "status": "harness_error", "violations": [],
                 "error": "gen_job: " + "".join(traceback.format_exception(type(err), err, err.__traceback__))[-3000:],
                 "faults": {}, "probes": {}, "events": 0, "signature": "", "digest": "", "nontrivial": False}
+    t0 = time.time()
     res = _exec_job(modname, job)
+    res["wall"] = round(time.time() - t0, 3)
     res["index"] = index
     if want_job or res["status"] in ("violation", "crash", "harness_error", "rejected"):
         res["job"] = job
@@ -390,6 +392,7 @@ def run_check(modname, tier, verif_seed, nworkers, n_override=None, selftest=Tru
             "determinism_selftest": {k: v for k, v in det.items()} if selftest and results else {},
             "real_vs_stub": getattr(mod, "REAL_VS_STUB", {}),
             "stopped_early_on_budget": stopped_early,
+            "slowest_runs": sorted(((r.get("wall", 0), r["index"]) for r in results), reverse=True)[:5],
             "run_seeds": f"sha256('{prop}:{verif_seed}:<i>')[:16] for i in 0..{n - 1}",
         },
         "assumptions": list(getattr(mod, "ASSUMPTIONS", [])),
